@@ -348,6 +348,18 @@ def rule_loading_coefficients(chk, prog):
   chk.at_least(rule, 8)
 
 
+def rule_default_advection(chk, prog):
+  """The equation classes take the centred stencil as their default vertical advection (the one H is written for)."""
+  import ast as _ast
+  rule = 'C04.9-explicit-stencil-matches-H'
+  cls = prog.cls(f'{PE}.PrimitiveEquations')
+  d = [dv for n, _, dv in cls.fields if n == 'vertical_advection']
+  chk.require(bool(d), f'{PE}.PrimitiveEquations: field vertical_advection not found')
+  txt = _ast.unparse(d[0]) if d[0] is not None else 'None'
+  chk.check(txt.split('.')[-1] == 'centered_vertical_advection', rule,
+            f'{PE}.PrimitiveEquations.vertical_advection defaults to the centred stencil (the discretisation the implicit H matrix is derived from)', txt, (cls.file, cls.lineno))
+
+
 def run(chk, prog, tier):
   rule_loading_coefficients(chk, prog)
   rule_virtual_temperature(chk, prog)
@@ -356,6 +368,11 @@ def run(chk, prog, tier):
   rule_h_matrix(chk, prog)
   rule_single_clip(chk, prog)
   rule_shortcut(chk, prog)
+  # sibling: the explicit centred advection applied to T_ref must be the stencil that the H matrix hard-codes (plain two-interface average of
+  # σ̇·Δ(T_ref)/Δσ with zero boundary fluxes, C04.5) — any other explicit stencil leaves a T_ref-dependent remainder on non-uniform levels
+  from rules import c13 as _c13
+  _c13.rule_advection(chk, prog, rule='C04.9-explicit-stencil-matches-H', centred_only=True)
+  rule_default_advection(chk, prog)
   chk.assume('the explicit centred advection and ω/p stencils are the ones decided under C13 / C05',
              'numpy roll / tril / cumsum / diff / concatenate semantics')
   return dict(
